@@ -175,6 +175,22 @@ func runC11(w *fw.Worker) {
 			w.Case(src, func() *fw.Violation { w.Nontrivial(); return c11StringStore(src) })
 		}
 	}
+	// strings that change in place (errmsg is rewritten by every conversion): the code-point view follows the current text
+	msgs := []string{"x", "é€😀", "", "1"}
+	for _, a := range msgs {
+		for _, b := range msgs {
+			var stmts []pt.Stmt
+			for step, txt := range []string{a, b} {
+				stmts = append(stmts, pt.InferDecl{Name: fmt.Sprint("n", step), X: pt.C("str2num", pt.S(txt))}, pt.Print(pt.V(fmt.Sprint("n", step)), pt.C("len", pt.V("errmsg"))),
+					pt.If{Conds: []pt.Expr{pt.Bin(">", pt.C("len", pt.V("errmsg")), pt.N(9))}, Blocks: [][]pt.Stmt{{
+						pt.Print(pt.Index{X: pt.V("errmsg"), I: pt.N(0)}, pt.Index{X: pt.V("errmsg"), I: pt.N(-2)}, pt.Index{X: pt.V("errmsg"), I: pt.N(-1)}, pt.Slice{X: pt.V("errmsg"), Lo: pt.N(-4)},
+							pt.Slice{X: pt.V("errmsg"), Lo: pt.N(3), Hi: pt.N(9)}),
+						pt.For{Var: "c", Range: []pt.Expr{pt.Slice{X: pt.V("errmsg"), Lo: pt.N(-3)}}, Body: []pt.Stmt{pt.Print(pt.S("c"), pt.V("c"))}}}},
+						Else: []pt.Stmt{pt.Print(pt.S("short"), pt.Slice{X: pt.V("errmsg")})}})
+			}
+			do("errmsg-view", true, stmts...)
+		}
+	}
 	for _, src := range c11NestedStringStores {
 		src := src
 		w.Case(src, func() *fw.Violation { w.Nontrivial(); w.Count("nested-string-store", 1); return c11StringStore(src) })
